@@ -118,6 +118,9 @@ def eff_pool(X, Y):
         ((eff("inc", c(X), I(1)), eff("inc", c(X), I(1), b)), 1),
         # a finite decimal with more than 10 decimal places (1/2048 = 0.00048828125)
         ((eff("inc", m, ("r", 1, 2048)),), 0),
+        # conditional effects whose condition is (headed by) a quantifier
+        ((eff("assign", b, TRUE, ("exists", VT, p(vT))),), 0),
+        ((eff("assign", b, FALSE, ("and", ("forall", VT, p(vT)), b)), eff("assign", n, I(1), NOT(("exists", VT, st(vT))))), 0),
     ]
 
 
